@@ -343,28 +343,42 @@ class Oracle:
         if not self.ctx.check(cond, sub, desc, detail):
             raise _Abort()
 
-    def expect_raises(self, fn, cls, sub, desc, what):
-        """``fn()`` must raise an instance of ``cls``.  A wrong exception class that is a listed known
-        finding does not end the case: the call was still rejected and the state checks follow."""
+    @staticmethod
+    def _call(fn):
+        """(result, exception) of ``fn()``.  Verdicts are given outside the ``except`` block so that a
+        Violation carries no exception context (Hypothesis would tell replays apart by the generated file
+        names in that context)."""
         try:
-            fn()
+            return fn(), None
         except (Violation, HarnessError, KeyboardInterrupt, SystemExit, MemoryError):
             raise
         except BaseException as exc:  # noqa  (nanite's errors derive from BaseException)
-            self.ctx.check(isinstance(exc, cls), sub, dict(desc, exception=type(exc).__name__),
-                           f"{what}: raised {type(exc).__name__}: {str(exc)[:160]} instead of {cls.__name__}")
-            self.ctx.event(f"rejected_with_{type(exc).__name__}")
-            return exc
-        self.ok(False, sub, dict(desc, exception="none"), f"{what}: accepted, expected {cls.__name__}")
+            caught = exc
+        caught.__traceback__ = None
+        return None, caught
+
+    def expect_raises(self, fn, cls, sub, desc, what):
+        """``fn()`` must raise an instance of ``cls``.  A wrong exception class that is a listed known
+        finding does not end the case: the call was still rejected and the state checks follow."""
+        _res, exc = self._call(fn)
+        if exc is None:
+            self.ok(False, sub, dict(desc, exception="none"), f"{what}: accepted, expected {cls.__name__}")
+        self.ctx.check(isinstance(exc, cls), sub, dict(desc, exception=type(exc).__name__),
+                       f"{what}: raised {type(exc).__name__}: {str(exc)[:160]} instead of {cls.__name__}")
+        self.ctx.event(f"rejected_with_{type(exc).__name__}")
+        return exc
 
     def must_work(self, fn, sub, desc, what):
-        try:
-            return fn()
-        except (Violation, HarnessError, KeyboardInterrupt, SystemExit, MemoryError):
-            raise
-        except BaseException as exc:  # noqa
+        res, exc = self._call(fn)
+        if exc is not None:
             self.ok(False, sub, dict(desc, exception=type(exc).__name__),
                     f"{what}: raised {type(exc).__name__}: {str(exc)[:160]}")
+        return res
+
+    def outcome(self, fn):
+        """name of the exception class raised by ``fn()`` or None (unspecified behaviour, only recorded)"""
+        _res, exc = self._call(fn)
+        return None if exc is None else type(exc).__name__
 
     def interpreter_state(self, desc, path_want, dwb_want):
         # (a listed known finding does not end the case: the harness repairs the state and goes on)
@@ -422,7 +436,7 @@ def check_mutant(case, ctx):
     asserted = not fault["kind"].startswith("obs_")
     label = fault_label(fault)
     ctx.note_case(case, nontrivial=asserted,
-                  classes=["mutant", "fault_" + fault["kind"], "anc" if spec["anc"] else "no_anc"])
+                  classes=["mutant", "fault_" + fault["kind"], "with_anc_recipe" if spec["anc"] else "without_anc_recipe"])
     sb = Sandbox(ctx)
     try:
         _run_mutant(case, ctx, sb, spec, fault, asserted, label)
@@ -458,13 +472,8 @@ def _run_mutant(case, ctx, sb, spec, fault, asserted, label):
         if asserted:
             orc.expect_raises(fn, ModelError, "mutant-rejected-with-model-error", desc, f"{route}({label})")
         else:
-            try:
-                fn()
-                ctx.event(f"{label}_{route}_accepted")
-            except (Violation, HarnessError, KeyboardInterrupt, SystemExit, MemoryError):
-                raise
-            except BaseException as exc:  # noqa
-                ctx.event(f"{label}_{route}_raised_{type(exc).__name__}")
+            name = orc.outcome(fn)
+            ctx.event(f"{label}_{route}_" + ("accepted" if name is None else f"raised_{name}"))
             if spec["key"] in nmodel.models_available:
                 nmodel.models_available.pop(spec["key"])
         orc.interpreter_state(desc, snap, case["dwb"])
@@ -701,13 +710,9 @@ def _run_history(ops, ctx, sb):
                 del names[key]
             else:
                 desc["call"] = "deregister_unregistered"
-                try:
-                    nmodel.deregister_model(stub)
-                    ctx.event("deregister_unregistered_silent")
-                except (Violation, HarnessError, KeyboardInterrupt, SystemExit, MemoryError):
-                    raise
-                except BaseException as exc:  # noqa  (unspecified; only the registry is examined)
-                    ctx.event(f"deregister_unregistered_{type(exc).__name__}")
+                # unspecified outcome; only the registry is examined
+                name = orc.outcome(lambda: nmodel.deregister_model(stub))
+                ctx.event("deregister_unregistered_" + (name or "silent"))
         elif o == "deregister_builtin":
             if BUILTIN in names:
                 md = nmodel.models_available.get(BUILTIN, sb.reg0.get(BUILTIN))
@@ -779,7 +784,7 @@ def st_op():
     bad = st.fixed_dictionaries({"op": st.just("register_bad"), "fault": st.integers(0, len(BAD_FAULTS) - 1)})
     dereg = st.fixed_dictionaries({"op": st.just("deregister"), "target": st.sampled_from(TARGETS)})
     builtin = st.sampled_from([{"op": "deregister_builtin"}, {"op": "register_builtin"}])
-    return st.one_of(load, load, load_valid, reg, reg, dereg, dereg, bad, builtin)
+    return st.one_of(load, load, load, load_valid, reg, reg, dereg, dereg, bad, builtin)
 
 
 def st_history():
@@ -794,7 +799,8 @@ def pinned_histories():
     hs = [[load(k)] for k in FILE_KINDS]
     hs += [[load("valid_a", on_path=w, dwb=False)] for w in ("first", "middle", "last")]
     hs += [[load("valid_a", dwb=False, register=False)],
-           [load("valid_a"), load("valid_b")], [load("valid_b", register=False), load("valid_a")],
+           [load("valid_a", dwb=False), load("valid_b", dwb=False)],
+           [load("valid_b", register=False, dwb=False), load("valid_a", dwb=False)],
            [load("valid_a"), load("valid_a", as_str=True), {"op": "deregister", "target": "valid_a"}],
            [{"op": "register", "slot": 0, "as": "module"}, load("valid_c"),
             {"op": "deregister", "target": "slot2"}],
@@ -849,7 +855,7 @@ def check_equiv(case, ctx):
     depth = case["x"]["cp"] - x_desc
     nt = bool((depth > 0).sum() >= 2 and (depth <= 0).sum() >= 1)
     ctx.note_case(case, nontrivial=nt, classes=["equiv", "own_model" if spec["own_model"] else "default_wrappers",
-                                                "anc" if spec["anc"] else "no_anc"])
+                                                "with_anc_recipe" if spec["anc"] else "without_anc_recipe"])
     sb = Sandbox(ctx)
     try:
         _run_equiv(case, ctx, sb, spec, x_desc)
@@ -1122,10 +1128,10 @@ def run(ctx):
         ctx.direct(check_builtin, {"kind": "builtin"}, label="builtin")
     ctx.enumerate(pinned_histories(), check_history, label="history-pinned", stop_after=40)
     ctx.enumerate(mutant_cases(), check_mutant, label="mutant-enum", stop_after=12)
-    ctx.hypothesis(st_mutant(), check_mutant, ctx.scale(480, 16000), label="mutant")
-    ctx.hypothesis(st_history(), check_history, ctx.scale(480, 24000), label="history")
-    ctx.hypothesis(st_equiv(), check_equiv, ctx.scale(320, 12000), label="equiv")
-    ctx.hypothesis(st_anc_case(), check_anc, ctx.scale(480, 16000), label="anc")
+    ctx.hypothesis(st_mutant(), check_mutant, ctx.scale(2400, 40000), label="mutant")
+    ctx.hypothesis(st_history(), check_history, ctx.scale(2400, 60000), label="history")
+    ctx.hypothesis(st_equiv(), check_equiv, ctx.scale(1200, 24000), label="equiv")
+    ctx.hypothesis(st_anc_case(), check_anc, ctx.scale(2000, 40000), label="anc")
 
 
 def replay(case, ctx):
